@@ -5,6 +5,7 @@
   line is cut: at the room left, or earlier right after a hyphen).
 
   Definitions only, plus the termination argument of `greedyFrom` (every line consumes something).
+  `WithBlanks` is the vocabulary of "no word is lost or repeated".
 -/
 import Simpleline.Model.Text
 
@@ -95,7 +96,11 @@ theorem greedyLine_rest_lt (w : Nat) (hw : 1 ≤ w) (chunks : List (List Char)) 
   split
   · cases chunks with
     | nil => exact absurd rfl hne
-    | cons d ds => simp only [chunksMeasure_cons, chunksMeasure]; omega
+    | cons d ds =>
+      show chunksMeasure [] < _
+      simp only [chunksMeasure_cons]
+      show 0 + 0 < _
+      omega
   · next c rest heq =>
     rw [hsplit, heq]
     split
@@ -162,5 +167,17 @@ decreasing_by all_goals exact greedy_rest_lt cc w first chunks (by assumption)
 /-- the greedy wrap of `chunks` on width `w` -/
 def greedyLines (cc : CharClass) (w : Nat) (chunks : List (List Char)) : List (List (List Char)) :=
   greedyFrom cc w true chunks
+
+/-! ### nothing but blanks is lost -/
+
+/-- `WithBlanks cc src lines`: the text `src` is the concatenation of `lines`, in order, with
+whitespace-only stretches re-inserted before, between and after them — i.e. `lines` is `src` cut into
+pieces, from which only whitespace-only pieces were deleted. -/
+inductive WithBlanks (cc : CharClass) : List Char → List (List Char) → Prop
+  | nil : WithBlanks cc [] []
+  | blank {b src : List Char} {lines : List (List Char)} :
+      blank cc b = true → WithBlanks cc src lines → WithBlanks cc (b ++ src) lines
+  | line {l src : List Char} {lines : List (List Char)} :
+      WithBlanks cc src lines → WithBlanks cc (l ++ src) (l :: lines)
 
 end Simpleline
